@@ -29,6 +29,9 @@ def run_config(chk, tier, cfgname):
     rules_ctor.run(chk, prog, T)
     from gcv import rules_builder
     rules_builder.slice_builder_unwind(chk, prog)
+    # a pointer to a builder's block handed out while the builder can still release it dangles exactly when code run
+    # afterwards unwinds (seed C11-f: a new_cyclic constructor that panics after its GcWeak escaped)
+    rules_builder.block_exposed_only_after_disarm(chk, prog)
 
 
 def run(chk, tier):
